@@ -17,7 +17,14 @@ MOD = 'props.C12_cleanup'
 
 
 class LevelPrefix(_LevelPrefix):
-    pass
+    """... and a layout that has no per-level directory (reverse_tms) must not offer one: cleanup() chooses the
+    directory strategy for every cache with a callable level_location"""
+
+    @classmethod
+    def prop(cls, ctx, cfg, x, y, z, level):
+        if ctx['cache']._level_location is None:
+            return True     # FileCache.__init__ then disables level_location: the tile walk is used
+        return _LevelPrefix.prop.__func__(cls, ctx, cfg, x, y, z, level)
 
 
 class CleanupDirectory(Harness):
@@ -292,7 +299,7 @@ CANARIES = [
 
 def obligations(tier, seed):
     specs = []
-    for layout in ('tc', 'mp', 'tms', 'arcgis'):
+    for layout in ('tc', 'mp', 'tms', 'arcgis', 'reverse_tms'):
         specs.append(spec(MOD, 'LevelPrefix', 'level-directory/%s' % layout, cfg=dict(layout=layout, d1='none')))
     # known finding: tiles below a dimension directory are not reached by the directory strategy
     # (simple_cleanup asks level_location(level) without dimensions): the level directory for
